@@ -41,7 +41,9 @@ def run_batches(batches, with_model=False, env=None):
         impl, baseline = S.run_stateful([C.HARNESS_BIN, 'serve'], lines)
         model = None
         if with_model:
-            model = S.run_stateful([C.MODEL_BIN], lines)[0]
+            # second phase: the model gets, per case, the opaque error text of the real answer
+            mlines = lines[:3] + [c.line + ' et=' + C.hx(S.err_text(S.parse_result(il))) for c, il in zip(cases, impl[3:])] + lines[-1:]
+            model = S.run_stateful([C.MODEL_BIN], mlines)[0]
         out[i] = (lines, impl, model, baseline)
     ts = []
     sem = threading.Semaphore(C.NCPU)
